@@ -76,6 +76,14 @@ def population(run: Run, maxlen):
             for i, val in zip(unasked, combo):
                 fields[i] = (fields[i][0], val)
             tagc = tag + ("" if not unasked else ":presence=" + "".join("T" if c else "F" for c in combo))
+            # "every call ... sends a fresh UUID in that field": an entry of auto_populated_fields for which nothing is emitted at all
+            missing = [i for i, (tok, _) in enumerate(fields) if tok is None]
+            for i in missing:
+                run.results.append(Result(f"{tagc}:field{i}:configured-field-is-handled", "open", "eval", 0, "table",
+                                          detail=f"decisions {[str(x) for x in var.decisions][:8]}: no code is emitted for auto_populated_fields[{i}]",
+                                          group="uuid4.populate:unset-gets-uuid4"))
+            if missing:
+                continue
             _check_variant(run, var, vi, tagc, tree, fields)
 
 
